@@ -51,6 +51,11 @@ def r_formatpair(P, chk):
         for dk in sorted(dkeys):
             for pk, fl in PAIRS:
                 n += 1
+                if fid[0] == "main.c" and fid not in PACKAGE_LAYER:
+                    # the command line: choosing file names / extensions per format is packaging, not rendering
+                    used_exempt.add(("main.c", "main"))
+                    chk.obligation(rid, "%s:%s on %s: command-line layer (output naming)" % (fid[0], fid[1], dk), nontrivial=False)
+                    continue
                 if fid in PACKAGE_LAYER:
                     used_exempt.add(fid)
                     chk.obligation(rid, "%s:%s on %s: packaging layer (%s)" % (fid[0], fid[1], dk, PACKAGE_LAYER[fid]), nontrivial=False)
